@@ -7,7 +7,6 @@ it with the Tree objects through their public attributes only (cat/children/toke
 What each format is *expected* to carry is stated here from the format definitions (own spelling of words,
 categories and rule labels); nothing is taken from the Coq models or from the encoders.
 """
-import math
 from lxml import etree
 
 import fmt_dec as D
@@ -328,8 +327,7 @@ def ser_tree(t):
     return {'cat': str(t.cat), 'op': [t.op_string, t.op_symbol], 'head_is_left': bool(t.head_is_left), 'children': [ser_tree(c) for c in t.children]}
 
 
-def unser_tree(d, tokens=None):
-    """tokens: per-sentence cache so that the n-best trees of a sentence share their Token objects"""
+def unser_tree(d):
     from depccg.tree import Tree
     from depccg.types import Token
     from depccg.cat import Category
